@@ -53,7 +53,11 @@ Record skeleton := {
   sk_commit_rollback : bool;   (* error exit of COMMIT issues ROLLBACK *)
   sk_ack_after_return : bool;  (* the acknowledgement loop runs on the result of process_batch_write *)
   sk_points : bool;
-  sk_arms : list arm
+  sk_arms : list arm;
+  (* H4b: the statement sequence of the multi-statement groups, as extracted from the source:
+     (site, steps) with step 1 = one fallible statement, 2 = a loop of fallible statements, 0 = an H4 point *)
+  sk_stmts : list (N * list N);
+  sk_start_points : bool       (* H4b points around the start-up recompute (start(), writer thread) *)
 }.
 Definition arm_of (sk : skeleton) (k : kind) : option arm :=
   find (fun a => kind_eqb (a_kind a) k) (sk_arms sk).
@@ -68,8 +72,16 @@ Definition arms_rollback (sk : skeleton) : bool :=
 Definition route_code (r : route) : N := match r with RDirect => 0 | RAuth => 1 | RDb => 2 | RNone => 3 end%N.
 Definition arms_ack (sk : skeleton) : bool :=
   forallb (fun a => a_ok_pol a && a_err_pol a && N.eqb (route_code (a_ok a)) (route_code (a_err a))) (sk_arms sk).
+(* the statements that exist inside the multi-statement groups and where the interior points sit:
+   1 InsertEntity::write (node, POINT, edge deletions, their log, edge insertions, sub entities),
+   2 DeletionQuery::delete (edge deletions, POINT, their log, node deletions, POINT, re-signed source nodes, node log),
+   4/5 RoomMutation[Stream]WriteQuery::write (the mutation, POINT, room changelog), 6 RoomNodeWriteQuery::write *)
+Definition stmts_expected : list (N * list N) :=
+  [(1, [1; 0; 2; 2; 2; 2]); (2, [2; 0; 2; 2; 0; 2; 2]); (4, [1; 0; 2]); (5, [1; 0; 2]); (6, [1; 0; 1])]%N.
+Definition stmts_known (sk : skeleton) : bool :=
+  list_eqb (fun a b : N * list N => N.eqb (fst a) (fst b) && list_eqb N.eqb (snd a) (snd b)) (sk_stmts sk) stmts_expected.
 Definition points_complete (sk : skeleton) : bool :=
-  sk_points sk && forallb a_points (sk_arms sk).
+  sk_points sk && forallb a_points (sk_arms sk) && stmts_known sk && sk_start_points sk.
 (* every message kind except Optimize runs a statement group *)
 Definition arms_fallible (sk : skeleton) : bool :=
   forallb (fun a => a_fallible a || kind_eqb (a_kind a) KOptimize) (sk_arms sk).
@@ -160,11 +172,12 @@ Inductive auth_eff :=
                                                an entity right / the request takes that right away *)
 Record req := mkReq {
   r_kind : kind;
-  r_groups : list (list op);   (* one list per statement group *)
+  r_groups : list (list (list op));   (* per statement group its statements (what runs between two H4 points),
+                                         per statement the row operations *)
   r_marks : list N;            (* cells update_daily_logs reports *)
   r_auth : auth_eff
 }.
-Definition req_ops (r : req) : list op := concat (r_groups r).
+Definition req_ops (r : req) : list op := concat (map (@concat op) (r_groups r)).
 Definition eff_marks (sk : skeleton) (r : req) : list N :=
   match arm_of sk (r_kind r) with
   | Some a => if a_marks a then r_marks r else []
@@ -178,6 +191,7 @@ Definition schedule := N -> fault.       (* fault at the n-th instrumentation po
 (* instrumentation points (hook H4), numbering of verif_faults *)
 Definition P_BEGIN := 1%N. Definition P_GROUP := 2%N. Definition P_GROUP_END := 3%N.
 Definition P_MARKS := 4%N. Definition P_COMMIT := 5%N. Definition P_COMMITTED := 6%N. Definition P_ACK := 7%N.
+(* H4b *) Definition P_STMT := 10%N. Definition P_START := 11%N. Definition P_START_DONE := 12%N.
 
 Record wstate := {
   w_disk : disk;
@@ -195,20 +209,40 @@ Inductive txn_res :=
 | TErr (n : N) (stuck : bool)
 | TDead (n : N) (last : N).
 
-(* effect of one statement group inside the transaction *)
-Definition group_eff (a : arm) (t : disk) (g : list op) : disk :=
-  match a_kind a with KCompute => recompute t | _ => apply_ops t g end.
+(* effect of one statement group inside the transaction: a recompute group runs DailyLogsUpdate::compute,
+   every other group executes its statements in order *)
+Definition group_pre (a : arm) (t : disk) : disk := match a_kind a with KCompute => recompute t | _ => t end.
+Definition stmt_eff (a : arm) (t : disk) (s : list op) : disk := match a_kind a with KCompute => t | _ => apply_ops t s end.
+Definition group_eff (a : arm) (t : disk) (g : list (list op)) : disk := fold_left (stmt_eff a) g (group_pre a t).
 
-Definition group_step (sched : schedule) (a : arm) (acc : txn_res) (g : list op) : txn_res :=
+(* the statements of a group; in front of every statement but the first there is a point (P_STMT):
+   Kill = the process dies between two statements, FailStmt = that statement fails (error exit of the arm) *)
+Fixpoint stmts_run (sched : schedule) (a : arm) (n : N) (t : disk) (ss : list (list op)) (first : bool) : txn_res :=
+  match ss with
+  | [] => TGo n t
+  | s :: rest =>
+      if first then stmts_run sched a n (stmt_eff a t s) rest false
+      else match sched (n + 1)%N with
+           | Kill => TDead (n + 1) P_STMT
+           | FailStmt => TErr (n + 1) (negb (a_rollback a))
+           | Continue => stmts_run sched a (n + 1) (stmt_eff a t s) rest false
+           end
+  end.
+
+Definition group_step (sched : schedule) (a : arm) (acc : txn_res) (g : list (list op)) : txn_res :=
   match acc with
   | TGo n t =>
       match sched (n + 1)%N with
       | Kill => TDead (n + 1) P_GROUP
-      | FailStmt => TErr (n + 1) (negb (a_rollback a))       (* the group's statement fails: error exit of the arm *)
+      | FailStmt => TErr (n + 1) (negb (a_rollback a))       (* the group's first statement fails: error exit of the arm *)
       | Continue =>
-          match sched (n + 2)%N with
-          | Kill => TDead (n + 2) P_GROUP_END
-          | _ => TGo (n + 2) (group_eff a t g)
+          match stmts_run sched a (n + 1) (group_pre a t) g true with
+          | TGo n' t' =>
+              match sched (n' + 1)%N with
+              | Kill => TDead (n' + 1) P_GROUP_END
+              | _ => TGo (n' + 1) t'
+              end
+          | other => other
           end
       end
   | other => other
@@ -335,6 +369,60 @@ Fixpoint run_batches (sk : skeleton) (sched : schedule) (n : N) (st : wstate) (a
              rr_items := items ++ rr_items r;
              rr_alive := rr_alive r; rr_hits := rr_hits r; rr_last := rr_last r |}
       end
+  end.
+
+(* ------------------------------------------------------------------ GraphDatabaseService::start on an existing folder
+   what the writer sees of a start, in order: writes that start() awaits (system room changelog, data model:
+   an Err makes start fail), messages nobody waits for (the hourly optimize tick, the start-up recompute, what the
+   application sends afterwards), the H4b point in front of the start-up recompute request, and the H4b point the
+   writer thread passes when the first recompute has been answered Ok *)
+Inductive sstep :=
+| SAwait (b : list req)
+| SFree (b : list req)
+| SStartPoint
+| SDonePoint.
+Record script_res := {
+  sr_state : wstate;
+  sr_items : list item;        (* the requests of the SFree batches that ran, with acknowledgement / committed *)
+  sr_alive : bool;
+  sr_started : bool;           (* start() returned Ok (so far) *)
+  sr_hits : N;
+  sr_last : N
+}.
+Fixpoint run_script (sk : skeleton) (sched : schedule) (n : N) (st : wstate) (last_ok started : bool) (sc : list sstep) : script_res :=
+  match sc with
+  | [] => {| sr_state := st; sr_items := []; sr_alive := true; sr_started := started; sr_hits := n; sr_last := 0%N |}
+  | SAwait b :: rest =>
+      let '(st', o, n', last) := run_batch sk sched n st b in
+      match o with
+      | Died _ => {| sr_state := st'; sr_items := []; sr_alive := false; sr_started := started; sr_hits := n'; sr_last := last |}
+      | Returned true => run_script sk sched n' st' true started rest
+      | Returned false =>   (* start() returns the error; the process goes on without a database service *)
+          {| sr_state := st'; sr_items := []; sr_alive := true; sr_started := false; sr_hits := n'; sr_last := last |}
+      end
+  | SFree b :: rest =>
+      let '(st', o, n', last) := run_batch sk sched n st b in
+      match o with
+      | Died c => {| sr_state := st'; sr_items := map (fun q => (q, None, c)) b; sr_alive := false; sr_started := started;
+                     sr_hits := n'; sr_last := last |}
+      | Returned ok =>
+          let '(items, _) := ack_batch sk ok true b in
+          let r := run_script sk sched n' st' ok started rest in
+          {| sr_state := sr_state r; sr_items := items ++ sr_items r; sr_alive := sr_alive r; sr_started := sr_started r;
+             sr_hits := sr_hits r; sr_last := sr_last r |}
+      end
+  | SStartPoint :: rest =>   (* start() is about to request the recompute and to return Ok *)
+      match sched (n + 1)%N with
+      | Kill => {| sr_state := st; sr_items := []; sr_alive := false; sr_started := false; sr_hits := (n + 1)%N; sr_last := P_START |}
+      | _ => run_script sk sched (n + 1)%N st last_ok true rest
+      end
+  | SDonePoint :: rest =>
+      if last_ok then
+        match sched (n + 1)%N with
+        | Kill => {| sr_state := st; sr_items := []; sr_alive := false; sr_started := started; sr_hits := (n + 1)%N; sr_last := P_START_DONE |}
+        | _ => run_script sk sched (n + 1)%N st last_ok started rest
+        end
+      else run_script sk sched n st last_ok started rest
   end.
 
 (* a restart: the connection is new (no abandoned transaction), the disk is what was committed,
